@@ -164,6 +164,7 @@ fn gen_cworld(rng: &mut Rng) -> CWorld {
   pick(rng, "dynamic-asset", "await import('./c2.txt', { with: { type: 'text' } });", &mut main, &mut paths_used);
   pick(rng, "types-dep", "import './e.js';", &mut main, &mut paths_used);
   pick(rng, "redirect-target", "import './r.ts';", &mut main, &mut paths_used);
+  pick(rng, "asset-redirect", "import rb from './rb.bin' with { type: 'bytes' };", &mut main, &mut paths_used);
   pick(rng, "http-scheme", "import 'http://h.test/g.ts';", &mut main, &mut paths_used);
   pick(rng, "declaration", "import type {} from './h.d.ts';", &mut main, &mut paths_used);
   pick(rng, "json", "import j from './j.json' with { type: 'json' };", &mut main, &mut paths_used);
@@ -199,6 +200,8 @@ fn gen_cworld(rng: &mut Rng) -> CWorld {
   );
   add(&mut w, &mut honest, &format!("{}e.d.ts", base), b"export declare const e: number;".to_vec(), vec![]);
   w.add(&format!("{}r.ts", base), Resp::Redirect(format!("{}f.ts", base)));
+  // an asset URL that redirects (to another asset)
+  w.add(&format!("{}rb.bin", base), Resp::Redirect(format!("{}c.bin", base)));
   add(&mut w, &mut honest, &format!("{}f.ts", base), bom(rng, "export const f = 1;\n".into()), vec![]);
   add(&mut w, &mut honest, "http://h.test/g.ts", b"export const g = 1;".to_vec(), vec![]);
   add(&mut w, &mut honest, &format!("{}h.d.ts", base), b"export {};".to_vec(), vec![]);
@@ -232,6 +235,9 @@ fn gen_cworld(rng: &mut Rng) -> CWorld {
     // a lockfile entry for the redirecting URL itself
     if rng.chance(1, 3) {
       lock_remote.insert(format!("{}r.ts", base), format!("{:064x}", rng.next()));
+    }
+    if rng.chance(1, 3) {
+      lock_remote.insert(format!("{}rb.bin", base), format!("{:064x}", rng.next()));
     }
     for (nv, mb) in &manifest_bytes {
       match rng.below(5) {
